@@ -469,6 +469,12 @@ async fn fabitn(
             );
         }
         crate::verif::probe("abit_r", i, &v);
+        // the party's own bits, packed the same way (oracle side only)
+        let mut xs = vec![0u128; blocks];
+        for (k, xk) in x.iter().enumerate() {
+            xs[k / 128] |= (*xk as u128) << (k % 128);
+        }
+        crate::verif::probe("abit_x", i, &xs);
     }
     // Step 3 b) Compute xj and xjmac for each party, broadcast xj.
     // We batch messages and send xjmac with xj as well, as from Step 3 d).
